@@ -30,6 +30,7 @@ CONSTANTS
     SvcOf,          \* [Inst -> Services]
     Manual,         \* KV override texts (abstract); see ManualSem
     MaxChanges,
+    MaxFaults,      \* how many catalog queries may fail (fault injection; 0 = none)
     PoisonTables    \* TRUE = deviation of the unrepaired code: one inexpressible
                     \* registration makes every candidate table invalid
 
@@ -41,12 +42,15 @@ VARIABLES
     wsPc, wsLast, wsSnap, wsTodo, wsCfg,        \* service watcher
     wkPc, wkLast, wkVal,                        \* KV watcher
     bePc, svccfg, mancfg, lastTable, active,    \* update loop and published table
-    svcIdx, activeIdx                           \* history: health index behind svccfg / active
+    svcIdx, activeIdx,                          \* history: health index behind svccfg / active
+    svcSnap, activeSnap,                        \* history: health snapshot behind svccfg / active
+    nfault, wsDegraded, svcDegraded             \* catalog faults so far; the config under construction /
+                                                \* delivered was built while a catalog query failed
 
-regvars == <<inst, node, kv, hidx, kidx, nchg>>
-wsvars  == <<wsPc, wsLast, wsSnap, wsTodo, wsCfg>>
+regvars == <<inst, node, kv, hidx, kidx, nchg, nfault>>
+wsvars  == <<wsPc, wsLast, wsSnap, wsTodo, wsCfg, wsDegraded>>
 wkvars  == <<wkPc, wkLast, wkVal>>
-bevars  == <<bePc, svccfg, mancfg, lastTable, active, svcIdx, activeIdx>>
+bevars  == <<bePc, svccfg, mancfg, lastTable, active, svcIdx, activeIdx, svcSnap, activeSnap, svcDegraded>>
 vars    == <<regvars, wsvars, wkvars, bevars>>
 
 -----------------------------------------------------------------------------
@@ -75,16 +79,18 @@ Init ==
     /\ wkPc = "idle" /\ wkLast = 0 /\ wkVal = "none"
     /\ bePc = "select" /\ svccfg = NoCfg /\ mancfg = "none" /\ lastTable = <<NoCfg, "init">> /\ active = {}
     /\ svcIdx = 0 /\ activeIdx = 0
+    /\ svcSnap = [i |-> inst, n |-> node] /\ activeSnap = [i |-> inst, n |-> node]
+    /\ nfault = 0 /\ wsDegraded = FALSE /\ svcDegraded = FALSE
 
 \* ---- the world
 InstChange(i, s) == /\ inst[i] # s /\ inst' = [inst EXCEPT ![i] = s] /\ hidx' = hidx + 1
-                    /\ UNCHANGED <<node, kv, kidx>>
+                    /\ UNCHANGED <<node, kv, kidx, nfault>>
 NodeChange(n, s) == /\ node[n] # s /\ node' = [node EXCEPT ![n] = s] /\ hidx' = hidx + 1
-                    /\ UNCHANGED <<inst, kv, kidx>>
+                    /\ UNCHANGED <<inst, kv, kidx, nfault>>
 KVChange(m)      == /\ kv # m /\ kv' = m /\ kidx' = kidx + 1
-                    /\ UNCHANGED <<inst, node, hidx>>
+                    /\ UNCHANGED <<inst, node, hidx, nfault>>
 \* the KV index moves although the text under the prefix is the same (another key was written)
-KVTouch          == /\ kidx' = kidx + 1 /\ UNCHANGED <<inst, node, kv, hidx>>
+KVTouch          == /\ kidx' = kidx + 1 /\ UNCHANGED <<inst, node, kv, hidx, nfault>>
 RegChange ==
     /\ nchg < MaxChanges /\ nchg' = nchg + 1
     /\ \/ \E i \in Inst, s \in InstState : InstChange(i, s)
@@ -95,11 +101,11 @@ RegChange ==
 
 \* ---- service watcher (registry/consul/service.go)
 WsIssue == /\ wsPc = "idle" /\ wsPc' = "blocked"
-           /\ UNCHANGED <<regvars, wsLast, wsSnap, wsTodo, wsCfg, wkvars, bevars>>
+           /\ UNCHANGED <<regvars, wsLast, wsSnap, wsTodo, wsCfg, wsDegraded, wkvars, bevars>>
 WsHealth == /\ wsPc = "blocked" /\ hidx > wsLast
             /\ wsSnap' = [i |-> inst, n |-> node] /\ wsLast' = hidx
             /\ wsTodo' = {SvcOf[i] : i \in {j \in Inst : Passing(inst, node, j)}}
-            /\ wsCfg' = NoCfg
+            /\ wsCfg' = NoCfg /\ wsDegraded' = FALSE
             /\ wsPc' = IF wsTodo' = {} THEN "send" ELSE "catalog"
             /\ UNCHANGED <<regvars, wkvars, bevars>>
 \* catalog read of service s: instances deregistered meanwhile vanish, tags are the current ones
@@ -110,7 +116,16 @@ WsCatalog(s) ==
                  bad |-> wsCfg.bad \cup {i \in mine : inst[i] = "bad"}]
     /\ wsTodo' = wsTodo \ {s}
     /\ wsPc' = IF wsTodo' = {} THEN "send" ELSE "catalog"
-    /\ UNCHANGED <<regvars, wsLast, wsSnap, wkvars, bevars>>
+    /\ UNCHANGED <<regvars, wsLast, wsSnap, wsDegraded, wkvars, bevars>>
+\* fault: the catalog query of service s fails.  The code logs the error and builds the configuration
+\* WITHOUT that service (its healthy instances lose their routes until the next registry change); what
+\* must never happen is that an instance which was not passing in the snapshot gets a route.
+WsCatalogFail(s) ==
+    /\ wsPc = "catalog" /\ s \in wsTodo /\ nfault < MaxFaults
+    /\ nfault' = nfault + 1 /\ wsDegraded' = TRUE
+    /\ wsTodo' = wsTodo \ {s}
+    /\ wsPc' = IF wsTodo' = {} THEN "send" ELSE "catalog"
+    /\ UNCHANGED <<inst, node, kv, hidx, kidx, nchg, wsLast, wsSnap, wsCfg, wkvars, bevars>>
 
 \* ---- KV watcher (registry/consul/kv.go)
 WkIssue == /\ wkPc = "idle" /\ wkPc' = "blocked"
@@ -123,23 +138,24 @@ WkAnswer == /\ wkPc = "blocked" /\ kidx > wkLast
 \* ---- update loop (main.watchBackend)
 BeRecvSvc == /\ bePc = "select" /\ wsPc = "send"
              /\ svccfg' = wsCfg /\ svcIdx' = wsLast /\ wsPc' = "idle" /\ bePc' = "process"
-             /\ UNCHANGED <<regvars, wsLast, wsSnap, wsTodo, wsCfg, wkvars, mancfg, lastTable, active, activeIdx>>
+             /\ svcSnap' = wsSnap /\ svcDegraded' = wsDegraded
+             /\ UNCHANGED <<regvars, wsLast, wsSnap, wsTodo, wsCfg, wsDegraded, wkvars, mancfg, lastTable, active, activeIdx, activeSnap>>
 BeRecvMan == /\ bePc = "select" /\ wkPc = "send"
              /\ mancfg' = wkVal /\ wkPc' = "idle" /\ bePc' = "process"
-             /\ UNCHANGED <<regvars, wsvars, wkLast, wkVal, svccfg, lastTable, active, svcIdx, activeIdx>>
+             /\ UNCHANGED <<regvars, wsvars, wkLast, wkVal, svccfg, lastTable, active, svcIdx, activeIdx, svcSnap, activeSnap, svcDegraded>>
 \* the loop compares candidate TEXTS; an inexpressible registration that is dropped on its own
 \* leaves no trace in the text
 CfgText(c) == IF PoisonTables THEN c ELSE [ok |-> c.ok, bad |-> {}]
 Cand == <<CfgText(svccfg), mancfg>>
 BeSame    == /\ bePc = "process" /\ Cand = lastTable /\ bePc' = "select"
-             /\ UNCHANGED <<regvars, wsvars, wkvars, svccfg, mancfg, lastTable, active, svcIdx, activeIdx>>
+             /\ UNCHANGED <<regvars, wsvars, wkvars, svccfg, mancfg, lastTable, active, svcIdx, activeIdx, svcSnap, activeSnap, svcDegraded>>
 BeReject  == /\ bePc = "process" /\ Cand # lastTable /\ ~Valid(svccfg, mancfg) /\ bePc' = "select"
-             /\ UNCHANGED <<regvars, wsvars, wkvars, svccfg, mancfg, lastTable, active, svcIdx, activeIdx>>
+             /\ UNCHANGED <<regvars, wsvars, wkvars, svccfg, mancfg, lastTable, active, svcIdx, activeIdx, svcSnap, activeSnap, svcDegraded>>
 BeInstall == /\ bePc = "process" /\ Cand # lastTable /\ Valid(svccfg, mancfg) /\ bePc' = "select"
-             /\ active' = TableOf(svccfg, mancfg) /\ lastTable' = Cand /\ activeIdx' = svcIdx
-             /\ UNCHANGED <<regvars, wsvars, wkvars, svccfg, mancfg, svcIdx>>
+             /\ active' = TableOf(svccfg, mancfg) /\ lastTable' = Cand /\ activeIdx' = svcIdx /\ activeSnap' = svcSnap
+             /\ UNCHANGED <<regvars, wsvars, wkvars, svccfg, mancfg, svcIdx, svcSnap, svcDegraded>>
 
-Internal == WsIssue \/ WsHealth \/ (\E s \in Services : WsCatalog(s)) \/ WkIssue \/ WkAnswer
+Internal == WsIssue \/ WsHealth \/ (\E s \in Services : WsCatalog(s) \/ WsCatalogFail(s)) \/ WkIssue \/ WkAnswer
             \/ BeRecvSvc \/ BeRecvMan \/ BeSame \/ BeReject \/ BeInstall
 Next == RegChange \/ Internal
 Spec == Init /\ [][Next]_vars /\ WF_vars(Internal)
@@ -158,7 +174,13 @@ TypeOK == /\ inst \in [Inst -> InstState] /\ node \in [Node -> NodeState] /\ kv 
           /\ active \subseteq Inst \cup {"X"}
 
 \* C01: once the registry's view stops changing the table is exactly healthy+tagged with overrides applied
-QuiescentCorrect == (Quiescent /\ Valid(RegCfg, kv)) => active = TableOf(RegCfg, kv)
+\* (after a failed catalog query the table may lack instances of the affected service: deviation of the
+\* code from "exactly", outside the quantifier of C01 which ranges over registry states, not API faults)
+QuiescentCorrect == (Quiescent /\ Valid(RegCfg, kv)) =>
+                       IF svcDegraded THEN active \subseteq TableOf(RegCfg, kv) ELSE active = TableOf(RegCfg, kv)
+\* C01, 2nd sentence, as a state invariant: every routed instance was passing in the health snapshot the
+\* active table was built from - also when catalog queries fail
+RoutedWerePassing == \A i \in active \cap Inst : Passing(activeSnap.i, activeSnap.n, i)
 \* C01, 2nd sentence: tables are built from ever newer observations of the registry
 MonotoneSnapshot == [][activeIdx' >= activeIdx /\ svcIdx' >= svcIdx]_vars
 \* C02: the active table is the denotation of the last valid candidate; invalid ones change nothing
@@ -167,7 +189,7 @@ InvalidKeeps == [][(bePc = "process" /\ ~Valid(svccfg, mancfg)) => (active' = ac
 NextValidApplied == [][(bePc = "process" /\ bePc' = "select" /\ Valid(svccfg, mancfg) /\ Cand # lastTable)
                           => active' = TableOf(svccfg, mancfg)]_vars
 \* C14: an inexpressible registration never keeps an expressible healthy instance out of a quiescent table
-Isolation == (Quiescent /\ ManualValid(kv)) => (TableOf(RegCfg, kv) \subseteq active)
+Isolation == (Quiescent /\ ManualValid(kv) /\ ~svcDegraded) => (TableOf(RegCfg, kv) \subseteq active)
 \* liveness (C01 "once the registry's view stops changing"; C02 "the next valid configuration is still applied")
-EventuallyCorrect == <>[](Quiescent /\ (Valid(RegCfg, kv) => active = TableOf(RegCfg, kv)))
+EventuallyCorrect == <>[](Quiescent /\ ((Valid(RegCfg, kv) /\ ~svcDegraded) => active = TableOf(RegCfg, kv)))
 =============================================================================
